@@ -5,6 +5,8 @@ import SymfcModel.Model.Eig
 import SymfcModel.Gen.Eig
 import SymfcModel.Lemmas.EigBook
 import SymfcModel.Lemmas.LinAlg
+import SymfcModel.Lemmas.EigAssemble
+import SymfcModel.Lemmas.BlockDiag
 namespace Symfc.C15
 open Symfc
 
@@ -52,6 +54,41 @@ theorem sub_block_size_positive (p : Nat) :
   have h := targetSize_bounds_gen Gen.eigTargetDiv Gen.eigTargetLo Gen.eigTargetHi p (by decide)
   have : 0 < Gen.eigTargetLo := by decide
   omega
+
+/-- C15.a (placement, for the blocks and the duplicate-block dictionary the model computes from ANY matrix and ANY
+    numbers of eigenvectors per unique block): no output position is written twice, every output column is supported
+    inside ONE block, and a block that shares a unique solve owns exactly `ncols` consecutive columns. -/
+theorem assembly_writes_disjoint_blocks (rule : OneByOneRule) (m : IMat) (den : Int) (ncols : List Nat) :
+    let blocks := findBlocks m
+    let ents := (eigshPlan rule m den blocks).1
+    let out := (placement blocks ents ncols).1
+    (out.map (fun t => (t.1, t.2.1))).Nodup ∧
+    (∀ t ∈ out, ∀ t' ∈ out, ∀ b b', t.1 ∈ blocks.getD b [] → t'.1 ∈ blocks.getD b' [] → b ≠ b' →
+      t.2.1 ≠ t'.2.1) ∧
+    (∀ e seq (he : e < ents.length) (hs : seq < ents[e].labels.length), ∀ t ∈ out,
+      (t.1 ∈ blocks.getD ents[e].labels[seq] [] ↔
+        colBase ents ncols e + seq * ncols.getD e 0 ≤ t.2.1 ∧
+        t.2.1 < colBase ents ncols e + seq * ncols.getD e 0 + ncols.getD e 0)) :=
+  eigsh_placement rule m den ncols
+
+/-- C15.a (L5): for a block-diagonal matrix, per-block orthonormal bases of the per-block unit eigenspaces, each column
+    placed on the rows of its block, form an orthonormal basis of the unit eigenspace of the whole matrix:
+    `EᵀE = 1`, `M E = E`, and `M x = x ↔ x ∈ range E`. Identical blocks may share one basis; zero rows contribute
+    nothing (`eigvec_zero_of_zero_row`). -/
+theorem block_assembly_spans_exactly_the_unit_eigenspace {K ι κ β : Type*} [CommRing K] [Fintype ι] [Fintype κ]
+    [Fintype β] [DecidableEq κ] [DecidableEq β] (blk : ι → β) (owner : κ → β) (M : Matrix ι ι K) (E : Matrix ι κ K)
+    (hM : BlockDiag.IsBlockDiag blk M) (hsupp : BlockDiag.ColSupported blk owner E)
+    (horth : ∀ k k', owner k = owner k' → ∑ i, E i k * E i k' = if k = k' then 1 else 0)
+    (heig : ∀ k i, blk i = owner k → ∑ j, (if blk j = owner k then M i j * E j k else 0) = E i k)
+    (hspan : ∀ b (x : ι → K), (∀ i, blk i ≠ b → x i = 0) → M.mulVec x = x →
+      ∃ a : κ → K, (∀ k, owner k ≠ b → a k = 0) ∧ x = E.mulVec a) :
+    E.transpose * E = 1 ∧ M * E = E ∧ ∀ x, M.mulVec x = x ↔ ∃ a, x = E.mulVec a :=
+  BlockDiag.blockwise_eigvecs blk owner M E hM hsupp horth heig hspan
+
+/-- C15: rows/columns that are entirely zero carry no unit eigenvector, so compressing them away loses nothing -/
+theorem zero_rows_carry_no_unit_eigenvector {K ι : Type*} [CommRing K] [Fintype ι] (M : Matrix ι ι K) (S : ι → Prop)
+    (hS : ∀ i, ¬ S i → ∀ j, M i j = 0) (x : ι → K) (hx : M.mulVec x = x) : ∀ i, ¬ S i → x i = 0 :=
+  BlockDiag.eigvec_zero_of_zero_row M S hS x hx
 
 section L3
 open Matrix
